@@ -32,12 +32,36 @@ fn strip_status(o: &PuObs) -> Vec<(pm::PoolInfo, cosmwasm_std::Coin)> {
 }
 
 pub fn oracle(c: &PuCtx, rec: &mut Rec) {
+    let (top, fee): (Option<(&usize, &String, &Option<bool>, &Option<bool>, &Option<bool>)>, Option<u128>) = match c.op {
+        PuOp::Toggle { u, pool, w, d, s } => (Some((u, pool, w, d, s)), None),
+        PuOp::ToggleAndFee { u, pool, w, d, s, amt } => (Some((u, pool, w, d, s)), Some(*amt)),
+        _ => (None, None),
+    };
+    if let Some((u, pool, w, d, s)) = top {
+        toggle_effect(c, rec, *u, pool, w, d, s, fee);
+        return;
+    }
+    // nothing but a feature toggle changes a switch
+    for p in &c.pre.pools {
+        if let Some(q) = c.post.pool(&p.pool_info.pool_identifier) {
+            if q.pool_info.status != p.pool_info.status {
+                rec.viol("C17_switch_changed_without_toggle", format!("{:?}: {:?} -> {:?}", c.op, p.pool_info.status, q.pool_info.status));
+            }
+        }
+    }
     match c.op {
-        PuOp::Toggle { u, pool, w, d, s } => {
+        PuOp::Swap { .. } | PuOp::Route { .. } | PuOp::Provide { .. } | PuOp::Withdraw { .. } => operation_effect(c, rec),
+        _ => {}
+    }
+}
+
+fn toggle_effect(c: &PuCtx, rec: &mut Rec, u: usize, pool: &String, w: &Option<bool>, d: &Option<bool>, s: &Option<bool>, fee: Option<u128>) {
+    {
+        {
             // only the named pool's named switches change, and only for the owner
             if c.out.is_ok() {
                 rec.validated += 1;
-                if *u != OWNER {
+                if u != OWNER {
                     rec.viol("C17_non_owner_toggled", format!("{:?}", c.op));
                 }
                 for p in &c.pre.pools {
@@ -55,11 +79,24 @@ pub fn oracle(c: &PuCtx, rec: &mut Rec) {
                 if c.pre.bal != c.post.bal {
                     rec.viol("C17_toggle_moved_funds", format!("{:?}", c.op));
                 }
+                // the rest of the configuration: unchanged, except a fee carried by the same message
+                let mut want_cfg = c.pre.cfg.clone();
+                if let (Some(cf), Some(amt)) = (want_cfg.as_mut(), fee) {
+                    cf.pool_creation_fee = cosmwasm_std::coin(amt, "uusd");
+                }
+                if c.post.cfg != want_cfg {
+                    rec.viol("C17_toggle_config_effect", format!("{:?}: configuration {:?} -> {:?}", c.op, c.pre.cfg, c.post.cfg));
+                }
             } else if !c.storage_unchanged {
                 rec.viol("C17_rejected_toggle_changed_state", format!("{:?}", c.op));
             }
         }
-        PuOp::Swap { .. } | PuOp::Route { .. } | PuOp::Provide { .. } | PuOp::Withdraw { .. } => {
+    }
+}
+
+fn operation_effect(c: &PuCtx, rec: &mut Rec) {
+    {
+        {
             let blocked: Vec<(String, usize)> = needs(c.op)
                 .into_iter()
                 .filter(|(p, f)| status_of(c.pre, p).map_or(false, |st| match f { 0 => !st.swaps_enabled, 1 => !st.deposits_enabled, _ => !st.withdrawals_enabled }))
@@ -111,7 +148,6 @@ pub fn oracle(c: &PuCtx, rec: &mut Rec) {
                 let _ = tb;
             }
         }
-        _ => {}
     }
 }
 
@@ -128,6 +164,9 @@ pub fn alphabet(w: &World, pre: &PuObs) -> Vec<PuOp> {
         let st = status_of(pre, id).unwrap();
         ops.push(PuOp::Toggle { u: OWNER, pool: id.into(), w: None, d: None, s: Some(!st.swaps_enabled) });
         ops.push(PuOp::Toggle { u: A, pool: id.into(), w: Some(true), d: Some(true), s: Some(true) });
+        // a switch travelling together with a configuration value in one message
+        let fee_now = pre.cfg.as_ref().map(|c| c.pool_creation_fee.amount.u128()).unwrap_or(1000);
+        ops.push(PuOp::ToggleAndFee { u: OWNER, pool: id.into(), w: Some(!st.withdrawals_enabled), d: None, s: Some(!st.swaps_enabled), amt: if fee_now == 1000 { 2000 } else { 1000 } });
     }
     let sw = |u: usize, pool: &str, o: &str, amt: u128, a: &str| PuOp::Swap { u, pool: pool.into(), offer: vec![(o.into(), amt)], ask: a.into(), slip: Some(5000), belief: None, recv: None };
     let r = |hops: &[(&str, &str, &str)], amt: u128| PuOp::Route { u: B, hops: hops.iter().map(|(a, b, c)| (a.to_string(), b.to_string(), c.to_string())).collect(), amt, min: None, recv: None, slip: Some(5000) };
